@@ -1,5 +1,6 @@
 '''Generators of lattice decks (C06 rectangular, C07 hexagonal).'''
 import math
+import os
 import numpy as np
 
 from . import model as M
@@ -92,11 +93,19 @@ class LatBuilder:
 
 
 def _ranges(rng, ndim, total_cap=60):
+    big = os.environ.get('VERIF_TIER') == 'thorough' and rng.random() < 0.08
+    if big:
+        # the thorough tier also develops lattices of a few hundred elements
+        # with ranges far from zero
+        total_cap = 320
     while True:
         rngs = []
         for _ in range(ndim):
             lo = rng.randint(-2, 1)
             hi = lo + rng.randint(1, 3)
+            if big:
+                lo = rng.randint(-9, 6)
+                hi = lo + rng.randint(2, 9)
             rngs.append((lo, hi))
         size = 1
         for lo, hi in rngs:
